@@ -13,7 +13,7 @@ EXTRA_TARGETS = {
     'C13': ['XdocModel.Proofs.C13Labels'],
     'C14': ['XdocModel.Proofs.C14Total'],
     'C15': ['XdocModel.Proofs.Compose2'],
-    'C18': ['XdocModel.Proofs.C18Labels', 'XdocModel.Proofs.Compose'],
+    'C18': ['XdocModel.Proofs.C18Labels', 'XdocModel.Proofs.Compose', 'XdocModel.Proofs.NDigits'],
     'C19': ['XdocModel.Proofs.Compose2', 'XdocModel.Proofs.DumpKept'],
 }
 
@@ -56,6 +56,9 @@ EXTRA_THEOREMS['C08'] += [('Xdoc.Compose2.parse_then_file_line_google', 'full'),
 
 EXTRA_THEOREMS['C10'] += [('Xdoc.C10.exitCode_le_one', 'full'), ('Xdoc.C10.osStatus_exitCode', 'full'), ('Xdoc.C10.osStatus_nonzero_iff', 'full'),
                           ('Xdoc.C10.rawExit_nonzero_iff', 'full'), ('Xdoc.C10.raw_count_wraps', 'witness')]
+
+EXTRA_THEOREMS['C18'] += [('Xdoc.C18.nDigits_minimal', 'full'), ('Xdoc.C18.nDigits_eq_iff', 'full'), ('Xdoc.C18.nDigits_pow', 'full'),
+                          ('Xdoc.C18.nDigits_pow_succ', 'full')]
 
 
 def _replay_K_C08_c(ctx, finding):
@@ -147,5 +150,8 @@ EXTRA_TEXT = {
             "second parse labels every line as intended — by `C13.labels_are_intended_general`); what is still missing for the full `ReparseSame` is that the "
             "lines of a parsed doctest are always in the grammar (not true as it stands because of the triple-quote hack) and the grouping/packaging of the "
             "second parse: observed with the real parser on every generated case. `Compose.parsed_parts_plain` / `reparse_labels_of_parse` turn the cleanliness "
-            "hypotheses (no line break, no tab inside a line) into theorems about the FIRST parse."),
+            "hypotheses (no line break, no tab inside a line) into theorems about the FIRST parse. "
+            "ADDED (Proofs/NDigits.lean, fourth session): the width of the number column is EXACTLY the integer meaning of `int(math.ceil(math.log(max(1, endline), 10)))` — "
+            "`nDigits_minimal`, `nDigits_eq_iff` (the least d with max 1 n <= 10^d, for every n), closed forms `nDigits_pow` / `nDigits_pow_succ` at the powers of ten "
+            "(where the float computation is compared by the correspondence)."),
 }
